@@ -1616,6 +1616,7 @@ def _new_record(ctx, kind=None):
     spec = {"rows": rows, "cols": cols, "ranks": ranks, "dtype": "c16" if rnd.random() < cfg["cplx_p"] else "f8",
             "layout": [rnd.choice(cfg["layouts"]) for _ in range(d)],
             "vals": [rnd.choice(("normal", "normal", "ints", "deficient")) for _ in range(d)],
+            "int_storage": rnd.random() < 0.15,
             "sub_seed": rnd.getrandbits(48)}
     if kind == "op":
         spec["neardiag"] = True
